@@ -1,15 +1,22 @@
 (* C12 — the token tree is well-formed and its generic views are faithful. *)
 From Coq Require Import ZArith List Bool.
-From Mistletoe Require Import Model.Tree Model.Traverse Model.Parser Proofs.TraverseBfs Proofs.Shape.
+From Mistletoe Require Import Base.PyStr Model.Tree Model.Block Model.Traverse Model.Parser Proofs.TraverseBfs Proofs.Shape Proofs.HeadingLevel.
 Import ListNotations.
 
 (* every tree the parser model produces, under every token configuration and for
    every input: containers hold only the documented kinds of children (lists hold
    items, tables rows, rows cells, leaf blocks inline tokens only), inline tokens
-   never contain block tokens, code/HTML blocks hold exactly one raw text (by type) *)
+   never contain block tokens, code/HTML blocks hold exactly one raw text (by type);
+   attribute ranges: every ATX heading has level 1-6, every setext heading level 1 or 2
+   (wf_shape checks them; a list's start is by construction the integer of its first marker) *)
 Theorem C12_shape : forall cfg lines, wf_shape (fst (fst (parse_lines cfg lines))) = true.
 Proof. exact parse_well_shaped. Qed.
 Print Assumptions C12_shape.
+
+(* the fact behind the heading range: for the Heading.pattern regenerated from /repo, whatever the line *)
+Theorem C12_heading_level_range : forall line lv ct cl, heading_start line = Some (lv, ct, cl) -> (1 <= lv <= 6)%Z.
+Proof. exact heading_level. Qed.
+Print Assumptions C12_heading_level_range.
 
 (* utils.traverse yields exactly the proper descendants that pass the class filter
    and the depth limit, with depth = distance from the source ... *)
